@@ -28,10 +28,13 @@
    Allocate/Pipeline assign the pod's GPU groups before the call
    (gpu_sharing.AllocateFractionalGPUTaskToNode).
 
-   Two places follow the INTENDED behaviour, not the code as first found (both were reproduced as
-   defects on the real code by this module's traces; findings/F14, F15):
+   Four places follow the INTENDED behaviour, not the code as first found (all were reproduced as
+   defects on the real code by this module's traces; findings/F14, F15, F16, F17):
      - un-pipelining a shared pod that Pipeline had moved to another GPU of the same node puts the node's
        entry of the pod back (the resources on the previous GPU were never removed);
+     - un-pipelining a virtually evicted pod gives it back the GPU groups its previous node holds for it (the
+       caller overwrites the pod's groups before Pipeline, so the recorded "previous" groups were the new ones);
+     - ConvertAllAllocatedToPipelined un-allocates with the virtual flag the pod had before its Allocate;
      - a failed Cache.Evict undoes, newest first, the still valid operations of that pod from the eviction on
        (the code un-evicted to the CURRENT, already Releasing, status and re-fired the allocate handlers).
 
@@ -280,7 +283,10 @@ UnpipelineFn(S, p, pn, ps, pg, pv, mv) ==
                       !.pod[p] = [st |-> ps, node |-> pn, groups |-> pg, virt |-> pv]]
       S2 == [S1 EXCEPT !.node[host] = IF mv THEN [NodeRemove(host, @, p) EXCEPT !.pods[p] = [st |-> ps, groups |-> pg]]
                                       ELSE NodeRemove(host, @, p)]
-  IN FireDealloc(S2, p)
+      \* a pod that is still on its previous node has the GPU groups that node holds for it (the recorded
+      \* previous groups may be the ones the caller assigned for this Pipeline)
+      S3 == IF pn \in Nodes /\ OnNode(S2.node[pn], p) THEN [S2 EXCEPT !.pod[p].groups = S2.node[pn].pods[p].groups] ELSE S2
+  IN FireDealloc(S3, p)
 
 UnallocateFn(S, p, pv) ==
   LET host == S.pod[p].node
@@ -343,13 +349,14 @@ RollbackFn(S, cp) == [UndoDown(S, Len(S.ops), cp + 1) EXCEPT !.ops = SubSeq(@, 1
 DiscardFn(S) == IF Len(S.ops) = 0 THEN S ELSE [UndoDown(S, Len(S.ops), 1) EXCEPT !.ops = <<>>]
 
 \* ConvertAllAllocatedToPipelined(j): for each allocate entry of j (log order, entries as of the start):
-\* unallocate(clone, nextNode, TRUE); Pipeline(clone, clone.NodeName, TRUE) (appends); then drop j's allocate entries
+\* unallocate(clone, nextNode, clone's virtual flag); Pipeline(clone, clone.NodeName, TRUE) (appends); then drop j's
+\* allocate entries. (The code as first found passed TRUE: a later Discard left the Pending pod flagged virtual, F16.)
 RECURSIVE ConvertFrom(_, _, _, _)
 ConvertFrom(S, j, i, n0) ==
   IF i > n0 THEN S
   ELSE LET op == S.ops[i]
        IN IF op.k = "allocate" /\ PJ(op.p) = j
-          THEN LET S1 == UnallocateFn([S EXCEPT !.pod[op.p].groups = op.pg], op.p, TRUE)
+          THEN LET S1 == UnallocateFn([S EXCEPT !.pod[op.p].groups = op.pg], op.p, op.pv)
                IN ConvertFrom(PipelineOp(S1, op.p, op.nn, TRUE, op.pg), j, i + 1, n0)
           ELSE ConvertFrom(S, j, i + 1, n0)
 ConvertFn(S, j) ==
